@@ -1,6 +1,7 @@
 import NfpmModel.Wire
 import NfpmModel.Ar
 import NfpmModel.Tar
+import NfpmModel.Cpio
 import NfpmModel.Spec.PlanSpec
 import NfpmModel.Spec.PayloadSpec
 import NfpmModel.Spec.ScriptSpec
@@ -303,6 +304,17 @@ def handle (op : String) (args : List String) : Except String String :=
     | none => pure "malformed"
     | some ms => pure (s!"{ms.length}" ++ String.join (ms.map (fun m =>
         s!" {hex m.hdr.name} {m.hdr.mode} {m.hdr.uid} {m.hdr.gid} {m.hdr.size} {m.hdr.mtime} {m.hdr.typeflag.toNat} {hex m.hdr.linkname} {hex m.hdr.uname} {hex m.hdr.gname} {m.body.length}")))
+  -- byte-level cpio payload of rpm: model writer and reader
+  | "cpiofile" => do
+    let es ← run1 (pList (do
+      let name ← pBytes; let mode ← pNat; let links ← pNat; let body ← pBytes
+      pure ({ name, mode, links, body } : Cpio.Entry))) args
+    pure (hex (Cpio.archive es))
+  | "cpioread" => do
+    let b ← run1 pBytes args
+    match Cpio.read b with
+    | none => pure "malformed"
+    | some es => pure (s!"{es.length}" ++ String.join (es.map (fun e => s!" {e.ino} {hex e.name} {e.mode} {e.links} {e.body.length}")))
   | _ => .error s!"unknown op {op}"
 
 partial def loop (hin : IO.FS.Stream) (hout : IO.FS.Stream) : IO Unit := do
